@@ -171,24 +171,34 @@ def gen_proxy_script(rng, thorough):
 
 
 def gen_dss_script(rng, thorough):
-    """the proxy around an evaluator that reads the current training set, the
-    training set being changed by the real vita::dss"""
+    """the proxies (training and validation side) around evaluators that read the current data sets, the
+    sets being changed by the real vita::dss: consulted before init(0) (cache already populated, or
+    restored from a saved stream), between init / shake / close, and across runs"""
     bits = rng.choice([7, 8])
     pool = key_pool(rng, bits)
     hot = rng.sample(pool, min(len(pool), rng.randint(2, 5)))
     gap = rng.randint(1, 3)
+
+    def evals(n):
+        return ["%s,%s" % (rng.choice("EU"), kstr(rng.choice(hot))) for _ in range(n)]
     ops = []
-    gen = 0
-    for _ in range(rng.randint(6, 80 if thorough else 40)):
-        r = rng.random()
-        if r < 0.25:
-            gen += 1
-            ops.append("G,%d" % gen)
-        elif r < 0.28:
-            ops.append("Q")
-        else:
-            # consult the training AND the validation proxy
-            ops.append("%s,%s" % (rng.choice("EU"), kstr(rng.choice(hot))))
+    if rng.random() < 0.7:
+        ops += evals(rng.randint(1, 4))          # before the first run: full data set
+        if rng.random() < 0.4:
+            ops.append("R")                      # ... or a cache restored by evaluator_proxy::load
+            ops += evals(rng.randint(0, 2))
+    for run in range(rng.randint(1, 3)):
+        ops.append("N,%d" % run)
+        gen = 0
+        for _ in range(rng.randint(3, 40 if thorough else 20)):
+            if rng.random() < 0.25:
+                gen += 1
+                ops.append("G,%d" % gen)
+            else:
+                ops += evals(1)
+        if rng.random() < 0.7:
+            ops.append("Q,%d" % run)
+            ops += evals(rng.randint(0, 3))
     return "D %d %d %d %d %s" % (bits, rng.randint(4, 40), gap, rng.randint(1, 10 ** 6), " ".join(ops))
 
 
@@ -302,6 +312,7 @@ def oracle_dss(script, out):
         return [("D:no-output", "the implementation produced no complete output: %r" % out[:200])]
     bad = []
     ti = 0
+    inited = False
     for n, tok in enumerate(w[5:]):
         if tok[0] in "EU":
             got, direct = toks[ti][2:].split("|")
@@ -312,8 +323,12 @@ def oracle_dss(script, out):
                             "op %d: after the data sets were changed by vita::dss, the %s proxy(%s) returned %s while "
                             "the wrapped evaluator called directly returns %s" %
                             (n, side, tok[2:], got.split("/")[0], direct)))
-        elif tok[0] == "G":
+        elif tok[0] in "GR":
             ti += 1
+        elif tok[0] == "N":
+            inited = True
+        elif tok[0] == "Q" and not inited:
+            ti += 1              # the harness answers BADOP for a close before the first init
     return bad
 
 
@@ -378,8 +393,11 @@ FIXED_SCRIPTS = [
     # load must adopt the saved seal (seeded/C04-3)
     "T 3 C C I,2,6,4000000000000000 S F,2,6 C F,2,6 I,2,6,3ff0000000000000 S F,2,6",
     # both proxies around the real dss, consulted before and after shakes that fire (seeded/C04-2)
-    "D 7 30 1 77 E,1,5 U,1,5 G,1 E,1,5 U,1,5 G,2 U,1,5 E,1,5 U,2,9 G,3 U,2,9 U,1,5 Q U,1,5 E,1,5",
-    "D 7 12 2 5 U,3,3 E,3,3 G,1 U,3,3 G,2 U,3,3 E,3,3 G,3 G,4 U,3,3 E,3,3",
+    "D 7 30 1 77 N,0 E,1,5 U,1,5 G,1 E,1,5 U,1,5 G,2 U,1,5 E,1,5 U,2,9 G,3 U,2,9 U,1,5 Q,0 U,1,5 E,1,5",
+    "D 7 12 2 5 N,0 U,3,3 E,3,3 G,1 U,3,3 G,2 U,3,3 E,3,3 G,3 G,4 U,3,3 E,3,3",
+    # caches populated (or restored) BEFORE dss::init(0) (seeded/C04-r2-3), and across runs
+    "D 7 30 1 9 E,1,5 U,1,5 N,0 E,1,5 U,1,5 G,1 E,1,5 Q,0 E,1,5 U,1,5 N,1 E,1,5 U,1,5",
+    "D 7 20 2 3 E,2,9 U,2,9 R E,2,9 N,0 E,2,9 U,2,9",
     "P 7 E,1,5,3ff0000000000000 E,2,6 S E,1,5,3ff0000000000000 E,2,6 C S E,1,5,4000000000000000 E,3,3 S E,3,3 E,1,5,4000000000000000 E,81,5,4008000000000000 S E,81,5,4008000000000000 E,1,5,4000000000000000",
     "P 7 E,1,5,3ff0000000000000 E,1,5,3ff0000000000000 C E,1,5,4000000000000000 E,2,2 E,2,2 E,81,5,bff8000000000000 E,1,5,4000000000000000",
 ]
